@@ -100,9 +100,30 @@ Fixpoint decode_all (ls : list text) : option (list text) :=
               end
   end.
 
+(* single-byte encodings (cp1252, iso8859-x, koi8-r, ...): 256 entries byte -> code point, None = undefined *)
+Definition sb_table := list (option N).
+Definition sb_decode1 (tbl : sb_table) (b : N) : option N := nth (N.to_nat b) tbl None.
+Fixpoint sb_decode (tbl : sb_table) (bs : text) : option text :=
+  match bs with
+  | [] => Some []
+  | b :: r => match sb_decode1 tbl b, sb_decode tbl r with
+              | Some c, Some t => Some (c :: t)
+              | _, _ => None
+              end
+  end.
+Fixpoint sb_decode_all (tbl : sb_table) (ls : list text) : option (list text) :=
+  match ls with
+  | [] => Some []
+  | l :: r => match sb_decode tbl l, sb_decode_all tbl r with
+              | Some t, Some ts => Some (t :: ts)
+              | _, _ => None
+              end
+  end.
+
 (* BytesIO / open(..., 'rb')  |  open(..., 'r', encoding='utf-8') or encoding='utf-8' given  |
-   open(..., 'r', encoding='latin-1') or encoding='latin-1' given (code point = byte value) *)
-Inductive fmode := Binary | TextUtf8 | TextLatin1.
+   open(..., 'r', encoding='latin-1') or encoding='latin-1' given (code point = byte value)  |
+   open(..., 'r', encoding=<a single-byte codec with the given table>) *)
+Inductive fmode := Binary | TextUtf8 | TextLatin1 | TextTable (tbl : sb_table).
 
 (* list(reverse_iter_lines(f, blocksize)): Ok lines | Raise ValueError (UnicodeDecodeError)
    | Raise RuntimeError = model out of fuel *)
@@ -113,6 +134,7 @@ Definition reverse_iter_lines (m : fmode) (c : text) (bs pos : nat) : res (list 
                | Binary => Ok ls
                | TextUtf8 => match decode_all ls with Some ts => Ok ts | None => Raise ValueError end
                | TextLatin1 => Ok ls
+               | TextTable tbl => match sb_decode_all tbl ls with Some ts => Ok ts | None => Raise ValueError end
                end
   end.
 
@@ -195,6 +217,16 @@ Section JSONL.
         end
     | TextUtf8, true =>
         match reverse_iter_lines TextUtf8 c jsonl_blocksize (length c) with
+        | Ok ls => Ok (jsonl_next_all loads_text is_ws_str ie ls)
+        | Raise e => Raise e
+        end
+    | TextTable tbl, false =>
+        match sb_decode tbl c with
+        | Some t => Ok (jsonl_next_all loads_text is_ws_str ie (file_iter_text t))
+        | None => Raise ValueError
+        end
+    | TextTable tbl, true =>
+        match reverse_iter_lines (TextTable tbl) c jsonl_blocksize (length c) with
         | Ok ls => Ok (jsonl_next_all loads_text is_ws_str ie ls)
         | Raise e => Raise e
         end
